@@ -24,6 +24,10 @@ CHECKS = {
    technique="exhaustive enumeration of every enum constant (listed from the current source by go/types at check time) and of all flag subsets up to a bound, through String/FromString and through print+parse of a minimal module",
    text="Every typed constant of all 35 enumerated types (653 distinct values, listed from the tree under test at check time, so an added constant is covered) goes through FromString(String(v)), per-type keyword injectivity, and a print->parse round trip inside a minimal module built through the API (one template per family); all 63 AllocKind subsets, all 2047 DISPFlag member subsets and all DIFlag subsets of <=3 (thorough <=4) members with their complements are printed, parsed and compared as values.",
    note="PreemptionDSOLocalEquivalent has no grammar position (LLVM has none either) and is checked at keyword level only; DIFlag subsets larger than the bound (other than complements) are not explored."),
+ "C13": dict(level="model_checking", design="§1 E2, §2 C13", engine="vhook-sched",
+   technique="stateless model checking of the real printing code under a controlled scheduler: DFS over all interleavings at lock granularity (preemption-bounded where stated), with the Go race detector (blind to the scheduler's own hand-offs) and a text oracle evaluated on every schedule",
+   text="For every scenario (5 module states: parsed with unnamed values, parsed kitchen-sink with quoted names, parsed with two functions, constructed never printed, constructed printed once) x every pair of 8 printer bodies (and String||String||LLString triples under a preemption bound), ALL schedules of the real code are executed: sync.Mutex is replaced through the build overlay by a shim with a scheduling point before each Lock and after each Unlock; quick explores all interleavings for the small pairs and preemption bound 3 for whole-module pairs, thorough all interleavings (48620 per whole-module pair). On each schedule the real TSan race detector must be silent (its view contains only the program's own mutex and join edges) and each returned text must equal the lone sequential text; deadlocks and panics are violations.",
+   note="Complete only up to the stated thread count (2-3) and preemption bounds; relies on DRF-SC (silence of the race detector on an execution implies equivalence to a lock-granularity interleaving); modules are fixed scenarios, not all modules."),
 }
 
 NOT_APPLICABLE = {}
